@@ -85,9 +85,10 @@ class Forker:
     Returns ("ok", outputs_alive) | ("mismatch", all_outputs) | ("overflow", None).
     """
 
-    def __init__(self, state, copier=copy.deepcopy):
+    def __init__(self, state, copier=copy.deepcopy, key=None):
         self.states = [state]
         self.copier = copier
+        self.key = key  # optional: state -> hashable; equal keys are merged
         self.forked_steps = 0
 
     def advance(self, stepfn, accept):
@@ -104,6 +105,11 @@ class Forker:
             self.forked_steps += 1
         if not alive:
             return "mismatch", outs
+        if self.key is not None and len(alive) > 1:
+            seen = {}
+            for s2, o in alive:
+                seen.setdefault(self.key(s2), (s2, o))
+            alive = list(seen.values())
         if len(alive) > MAX_STATES:
             return "overflow", None
         self.states = [s for s, _ in alive]
